@@ -141,7 +141,17 @@ fn serve_conn(mut stream: TcpStream, env: Env, stop: Arc<AtomicBool>) {
 
 impl RpcServer {
     pub fn start(env: Env) -> RpcServer {
-        let l = TcpListener::bind("127.0.0.1:0").unwrap();
+        Self::start_on(env, 0).unwrap()
+    }
+
+    /// The node goes away: the listener is closed and open connections are dropped.
+    pub fn stop(&self) {
+        self.stop.store(true, Ordering::SeqCst);
+        std::thread::sleep(Duration::from_millis(700));
+    }
+
+    pub fn start_on(env: Env, port: u16) -> Option<RpcServer> {
+        let l = TcpListener::bind(("127.0.0.1", port)).ok()?;
         let port = l.local_addr().unwrap().port();
         let stop = Arc::new(AtomicBool::new(false));
         let s2 = stop.clone();
@@ -159,7 +169,7 @@ impl RpcServer {
                 Err(_) => std::thread::sleep(Duration::from_millis(3)),
             }
         });
-        RpcServer { port, stop }
+        Some(RpcServer { port, stop })
     }
 }
 
@@ -522,9 +532,86 @@ fn run_where(limit: usize, keep: impl Fn(&[Ev]) -> bool) -> (u64, Vec<(String, S
     (ok, bad)
 }
 
+/// Process-level C12: the real teosd (real `BitcoindClient` as block source and RPC client) against a node that
+/// goes away for a few polling intervals and comes back on the same port. Err(signature, detail).
+pub fn outage_recovery() -> Result<(), (String, String)> {
+    let cfg = TowerCfg { slots: 3, duration: 400, grace: 6, txindex: false };
+    let env = Env::new(false);
+    let rpc = RpcServer::start(env.clone());
+    let port = rpc.port;
+    let dir = DataDir::new();
+    let t = Teosd::start(&dir, &cfg, port, free_ports()).ok_or_else(|| ("machinery:teosd-did-not-come-up".to_owned(), String::new()))?;
+    let reg = |u: u8| t.post("/register", json!({"user_id": user_keys(u).hex()}));
+    let add = |u: u8, k: u8| {
+        let (a, sig) = World::make_appointment(&user_keys(u), k, Blob::Valid, 42);
+        t.post("/add_appointment", json!({"appointment": {"locator": hex::encode(a.locator.to_vec()), "encrypted_blob": hex::encode(&a.encrypted_blob), "to_self_delay": a.to_self_delay}, "signature": sig}))
+    };
+    let patience = |secs: u64| Duration::from_secs(secs * PATIENCE.load(std::sync::atomic::Ordering::Relaxed));
+    if reg(1).map(|r| r.0) != Some(200) || add(1, 1).map(|r| r.0) != Some(200) {
+        return Err(("machinery:teosd-refused-the-set-up".into(), String::new()));
+    }
+    // the node goes away; the chain monitor polls every second
+    rpc.stop();
+    let t0 = Instant::now();
+    let mut refused = false;
+    while t0.elapsed() < patience(20) {
+        if let Some((503, _)) = reg(2) {
+            refused = true;
+            break;
+        }
+        std::thread::sleep(Duration::from_millis(200));
+    }
+    if !refused {
+        return Err(("teosd:outage-not-noticed:api-keeps-taking-work".into(), "bitcoind has been unreachable for 20 polling intervals and the public API still does not answer 503".into()));
+    }
+    // a breach is mined meanwhile, the node comes back on the same port
+    env.lock().mine(vec![crate::sim::build_tx(TxName::D(1))]);
+    let rpc2 = {
+        let t1 = Instant::now();
+        loop {
+            if let Some(r) = RpcServer::start_on(env.clone(), port) {
+                break r;
+            }
+            if t1.elapsed() > Duration::from_secs(20) {
+                return Err(("machinery:cannot-rebind-the-node-port".into(), String::new()));
+            }
+            std::thread::sleep(Duration::from_millis(100));
+        }
+    };
+    let t0 = Instant::now();
+    let mut served = false;
+    while t0.elapsed() < patience(30) {
+        if let Some((200, _)) = reg(2) {
+            served = true;
+            break;
+        }
+        std::thread::sleep(Duration::from_millis(200));
+    }
+    if !served {
+        return Err(("teosd:no-recovery:api-still-unavailable".into(), "bitcoind has been back for 30 polling intervals and the public API still answers 503".into()));
+    }
+    if !t.wait_synced(&env) {
+        return Err(("teosd:no-recovery:block-mined-during-the-outage-not-processed".into(), String::new()));
+    }
+    let db = DbView::read(&t.db);
+    if db.trackers.len() != 1 {
+        return Err(("teosd:no-recovery:breach-mined-during-the-outage-not-answered".into(), format!("trackers after recovery: {:?}", db.trackers.keys().collect::<Vec<_>>())));
+    }
+    drop(rpc2);
+    Ok(())
+}
+
+pub fn outage_recovery_patiently() -> Result<(), (String, String)> {
+    PATIENCE.store(4, std::sync::atomic::Ordering::Relaxed);
+    let r = outage_recovery();
+    PATIENCE.store(1, std::sync::atomic::Ordering::Relaxed);
+    r
+}
+
 pub fn main_cmd() -> i32 {
     let (ok, bad) = run_all(usize::MAX);
     println!("conformance traces validated against teosd: {ok}");
+    println!("outage and recovery of the real teosd: {:?}", outage_recovery());
     for (n, e) in bad.iter() {
         println!("DIVERGENCE {n}: {e}");
     }
